@@ -131,6 +131,13 @@ func inDomain(c Case, m ref.Tx) string {
 	if !ref.FeeSumIn(m).IsUint64() || !ref.FeeSumOut(m).IsUint64() {
 		return "a total overflows uint64"
 	}
+	// rates written with huge numbers: judged where the exact products bytes x satoshis fit uint64
+	// (sizes of the transaction with its change output: the largest the operation prices)
+	if ref.FeeQuoteIsWide(q) {
+		if fin, _, err := ref.FeeEstimatedFinal(withChange(c, m)); err == nil && !ref.FeeFits(ref.FeeSizesOf(fin), q) {
+			return "bytes x satoshis does not fit uint64"
+		}
+	}
 	return ""
 }
 
@@ -261,6 +268,10 @@ func judge(ctx *pbt.Ctx, c Case, before ref.Tx, tx *bt.Tx, opErr error, addr str
 	ctx.Label("nout=" + noutClass(len(before.Out)))
 	ctx.Label("stdrate=" + rateClass(c.Quote.Std))
 	ctx.Label(feeTagLabel(c.Quote))
+	wideLabel(ctx, c.Quote)
+	if sh := gen.C10OutpointShape(before.In); sh != "" {
+		ctx.Label(sh)
+	}
 	if len(before.In) >= 253 {
 		ctx.Label("inputs>=253")
 	}
@@ -468,8 +479,61 @@ func genQuote(t *rapid.T) ref.FeeQuote {
 	q := ref.FeeQuote{Std: genUnit(t, "std"), Data: genUnit(t, "data"), StdRelay: genUnit(t, "stdrelay"), DataRelay: genUnit(t, "datarelay"),
 		StdTag: genFeeTag(t, "stdtag"), DataTag: genFeeTag(t, "datatag")}
 	genQuoteBuild(t, &q)
+	genQuoteWiden(t, &q)
 	return q
 }
+
+// genQuoteWiden rewrites, in about one quote in eight, one or both mining rates with huge
+// numbers (gen.C10UnitWide: ordinary rates scaled by 2^31..2^40 or 10^9, the 2^53 neighbourhood,
+// 2^62, the largest int); two thirds of those quotes arrive through JSON.
+func genQuoteWiden(t *rapid.T, q *ref.FeeQuote) {
+	switch rapid.IntRange(0, 23).Draw(t, "wide") {
+	case 7:
+		q.Std = gen.C10UnitWide(t, "wstd")
+	case 11:
+		q.Data = gen.C10UnitWide(t, "wdata")
+	case 13:
+		q.Std, q.Data = gen.C10UnitWide(t, "wstd"), gen.C10UnitWide(t, "wdata")
+	default:
+		return
+	}
+	if rapid.IntRange(0, 2).Draw(t, "wide_json") != 0 {
+		q.Build = []int{ref.FeeBuildUnmarshal, ref.FeeBuildUsedBefore}[rapid.IntRange(0, 1).Draw(t, "wide_build")]
+	}
+	if q.Build == ref.FeeBuildShared {
+		q.Data, q.DataRelay = q.Std, q.StdRelay
+	}
+}
+
+// genEditWiden does the same to a quote edit, in about one edit in eight.
+func genEditWiden(t *rapid.T, unit, unit2 *ref.FeeUnit, via *string) {
+	if rapid.IntRange(0, 7).Draw(t, "wide_edit") != 5 {
+		return
+	}
+	*unit = gen.C10UnitWide(t, "wunit")
+	if rapid.Bool().Draw(t, "wide2") {
+		*unit2 = gen.C10UnitWide(t, "wunit2")
+	}
+	if rapid.IntRange(0, 2).Draw(t, "wide_json") != 0 {
+		*via = "unmarshal"
+	}
+}
+
+func wideLabel(ctx *pbt.Ctx, q ref.FeeQuote) {
+	if !ref.FeeQuoteIsWide(q) {
+		return
+	}
+	ctx.Label("fee-unit-numbers>10^6")
+	for _, u := range []ref.FeeUnit{q.Std, q.Data} {
+		if u.Sat >= 1<<32 {
+			ctx.Label("fee-unit-satoshis>=2^32")
+		}
+		if u.Sat > 1<<53 || u.Bytes > 1<<53 {
+			ctx.Label("fee-unit-numbers>2^53")
+		}
+	}
+}
+
 
 // genQuoteVia draws the exported way a quote object in use is changed.
 func genQuoteVia(t *rapid.T, label string) string {
@@ -524,6 +588,9 @@ func genOut(t *rapid.T, small bool) ref.Out {
 			pre = []byte{0x00, 0x6a}
 		}
 		o.Script = append(pre, gen.FillBytes(t, n, "payload")...)
+		if rapid.IntRange(0, 3).Draw(t, "template_payload") == 2 { // pushes that start with opcode-valued bytes
+			o.Script = append(pre, gen.C10DataPayload(t, "tpl")...)
+		}
 	case 5:
 		o.Script = pbt.Hex{}
 	default:
@@ -598,6 +665,8 @@ func genCase(t *rapid.T) Case {
 		}
 		c.Tx.In = append(c.Tx.In, in)
 	}
+	c.Tx.In = gen.C10SpecialOutpoints(t, c.Tx.In)
+	nin = len(c.Tx.In)
 	bigCount := rapid.IntRange(0, 9).Draw(t, "bigcount") == 9
 	if bigCount {
 		c.NOut = rapid.SampledFrom([]int{251, 252, 252, 252, 253, 254}).Draw(t, "nout")
